@@ -98,7 +98,7 @@ func c03Labels(d ttmlDoc, r *ttmlRendering) (bool, []string) {
 		}
 	}
 	forms := map[string]bool{}
-	var region, inline, multiline, contSpan, anon bool
+	var region, inline, multiline, contSpan, anon, emptyLine bool
 	for _, c := range d.Cues {
 		for _, tt := range []ttmlTime{c.Begin, c.End} {
 			f := tt.Form
@@ -118,7 +118,8 @@ func c03Labels(d ttmlDoc, r *ttmlRendering) (bool, []string) {
 				inline = inline || len(run.Attrs) > 0
 				anon = anon || !run.Span
 			}
-			if j > 0 && sameSpan(c.Lines[j-1][len(c.Lines[j-1])-1], l[0]) {
+			emptyLine = emptyLine || len(l) == 0
+			if j > 0 && len(l) > 0 && len(c.Lines[j-1]) > 0 && sameSpan(c.Lines[j-1][len(c.Lines[j-1])-1], l[0]) {
 				contSpan = true
 			}
 		}
@@ -148,6 +149,7 @@ func c03Labels(d ttmlDoc, r *ttmlRendering) (bool, []string) {
 	add(anon, "anonymous-text")
 	if r != nil {
 		add(contSpan && r.BrInSpan, "br-inside-span")
+	add(emptyLine, "empty-line")
 		add(r.Indent != "", "indented")
 		add(r.StylePfx != "tts", "prefix-variation")
 		add(r.EOL == "\r\n" && r.Indent != "", "crlf")
@@ -218,6 +220,7 @@ func TestC03(t *testing.T) {
 
 	rapidCheck(t, "C03/read", tier(2500, 250000), func(rt *rapid.T) {
 		c := c03ReadCase{Doc: genTTMLDoc(rt, false), Rend: genTTMLRendering(rt)}
+		addEmptyLines(rt, &c.Doc)
 		b := renderTTML(c.Doc, c.Rend)
 		nt, ls := c03Labels(c.Doc, &c.Rend)
 		ev.Case(nt, string(b), append(ls, "read")...)
@@ -228,6 +231,7 @@ func TestC03(t *testing.T) {
 	})
 	rapidCheck(t, "C03/write", tier(1500, 150000), func(rt *rapid.T) {
 		c := c03WriteCase{Doc: genTTMLDoc(rt, true), Indent: rapid.SampledFrom([]string{"default", "", "\t", "  "}).Draw(rt, "indentopt")}
+		addEmptyLines(rt, &c.Doc)
 		nt, ls := c03Labels(c.Doc, nil)
 		ev.Case(nt, fmt.Sprintf("w%v", c), append(ls, "write")...)
 		if nt && len(c.Doc.Cues) <= 2 {
